@@ -304,7 +304,9 @@ pub fn interpreter_accepts(pool: &Pool, case: &Case, j: usize, script_sig: &Scri
 
 /// Check what `update_input_with_descriptor` recorded in `inp` against the descriptor of input
 /// `j` as the harness knows it.  `fresh`: the input carried nothing but utxo data before.
-pub fn check_update(pool: &Pool, case: &Case, j: usize, inp: &psbt::Input, fresh: bool) -> Vec<String> {
+pub fn check_update(pool: &Pool, case: &Case, j: usize, inp: &psbt::Input, fresh: bool, alt: bool) -> Vec<String> {
+    // the origin the (last) descriptor states for a key
+    let want_origin = |k: &super::gen::KeyInfo| if alt { (k.alt_fp, k.alt_path.clone()) } else { (k.fp, k.path.clone()) };
     let m = &case.inputs[j];
     let mut bad = Vec::new();
     let spk = m.spk.as_bytes();
@@ -362,8 +364,9 @@ pub fn check_update(pool: &Pool, case: &Case, j: usize, inp: &psbt::Input, fresh
             match inp.bip32_derivation.get(&k.pk) {
                 None => bad.push(format!("bip32_derivation lacks the descriptor key {}", k.pk)),
                 Some((fp, path)) => {
-                    if *fp != k.fp || *path != k.path {
-                        bad.push(format!("bip32_derivation of {}: recorded [{}]/{} expected [{}]/{}", k.pk, fp, path, k.fp, k.path));
+                    let (wfp, wpath) = want_origin(k);
+                    if *fp != wfp || *path != wpath {
+                        bad.push(format!("bip32_derivation of {}: recorded [{}]/{} but the descriptor of this update says [{}]/{}", k.pk, fp, path, wfp, wpath));
                     }
                 }
             }
@@ -427,8 +430,9 @@ pub fn check_update(pool: &Pool, case: &Case, j: usize, inp: &psbt::Input, fresh
                     if got != want {
                         bad.push(format!("tap_key_origins of key #{}: {} leaf hashes recorded, {} expected", i, lhs.len(), want.len()));
                     }
-                    if *fp != k.fp || *path != k.path {
-                        bad.push(format!("tap_key_origins of key #{}: recorded [{}]/{} expected [{}]/{}", i, fp, path, k.fp, k.path));
+                    let (wfp, wpath) = want_origin(k);
+                    if *fp != wfp || *path != wpath {
+                        bad.push(format!("tap_key_origins of key #{}: recorded [{}]/{} but the descriptor of this update says [{}]/{}", i, fp, path, wfp, wpath));
                     }
                 }
             }
@@ -438,6 +442,41 @@ pub fn check_update(pool: &Pool, case: &Case, j: usize, inp: &psbt::Input, fresh
         }
         if fresh && (!inp.bip32_derivation.is_empty() || inp.witness_script.is_some() || inp.redeem_script.is_some()) {
             bad.push("pre-taproot fields recorded for a taproot descriptor".to_string());
+        }
+    }
+    bad
+}
+
+/// Key origins recorded in a PSBT OUTPUT by update_output_with_descriptor, against the
+/// descriptor of input `j` (original or alias origins).
+pub fn check_output_origins(pool: &Pool, case: &Case, j: usize, out: &psbt::Output, alt: bool) -> Vec<String> {
+    let m = &case.inputs[j];
+    let mut bad = Vec::new();
+    for (i, ki) in m.keys.iter().enumerate() {
+        let k = &pool.keys[*ki];
+        let (wfp, wpath) = if alt { (k.alt_fp, k.alt_path.clone()) } else { (k.fp, k.path.clone()) };
+        if let Some(tap) = &m.tap {
+            match out.tap_key_origins.get(&k.xonly()) {
+                None => bad.push(format!("output tap_key_origins lacks key #{}", i)),
+                Some((lhs, (fp, path))) => {
+                    let mut want: Vec<TapLeafHash> = tap.leaves.iter().filter(|l| l.keys.contains(&i)).map(|l| l.leaf_hash).collect();
+                    want.sort();
+                    want.dedup();
+                    let mut got = lhs.clone();
+                    got.sort();
+                    if got != want {
+                        bad.push(format!("output tap_key_origins of key #{}: {} leaf hashes recorded, {} expected", i, lhs.len(), want.len()));
+                    }
+                    if *fp != wfp || *path != wpath {
+                        bad.push(format!("output tap_key_origins of key #{}: recorded [{}]/{} but the descriptor of this update says [{}]/{}", i, fp, path, wfp, wpath));
+                    }
+                }
+            }
+        } else {
+            match out.bip32_derivation.get(&k.pk) {
+                Some((fp, path)) if *fp == wfp && *path == wpath => {}
+                other => bad.push(format!("output bip32_derivation of key #{}: {:?}, the descriptor of this update says [{}]/{}", i, other, wfp, wpath)),
+            }
         }
     }
     bad
